@@ -30,7 +30,8 @@ ASSUMPTIONS = ["in the dask path pyxel executes the first assignment one extra t
                "custom tables are generated with exactly the needed columns (column_range end is label-inclusive)"]
 REQUIRED_COUNTERS = ["spaces", "runs_expected", "runs_observed", "positions_resolved", "cells_compared",
                      "mode_product", "mode_sequential", "mode_custom", "exec_dask", "exec_seq",
-                     "vector_params", "colliding_short_names", "disabled_params", "numpy_expressions"]
+                     "vector_params", "colliding_short_names", "disabled_params", "numpy_expressions",
+                     "second_runs_on_same_objects"]
 TIMEOUT = {"quick": 900, "thorough": 3600}
 LEVEL_TEXT = ("Exploration by runtime monitoring: each generated parameter space is executed by the real Observation "
               "(sequentially and through dask); the probe log gives the multiset of assignments actually applied and the "
@@ -40,7 +41,7 @@ LEVEL_NOTE = ("Trusted: xarray label selection on the returned tree; the enc pro
               "Known finding: sequential mode + with_dask zips the parameter lists (KNOWN_FINDINGS.json).")
 
 VOCAB = ["alpha.fits", "beta.fits", "gamma.npy", "delta", "eps ilon"]
-ROWS, COLS = 3, 6
+ROWS, COLS = 3, 7
 LOG: list = []
 _LOCK = threading.Lock()
 _KEEP: list = []
@@ -51,18 +52,20 @@ def enc(detector, **kw):
     row = kw["row"]
     vals = [float(kw.get("a", 0)), float(kw.get("b", 0))] + [float(x) for x in kw.get("v", [])]
     svals = float(VOCAB.index(kw["s"])) if kw.get("s") in VOCAB else -1.0
+    gval = float((kw.get("cfg") or {}).get("g", -1.0))   # an entry of a dictionary-valued argument
     det_fields = [float(detector.environment.temperature), float(detector.characteristics.quantum_efficiency),
                   float(detector.characteristics.full_well_capacity)]
     with _LOCK:
         _KEEP.append(detector)
         LOG.append({"model": detector.current_running_model_name, "det": id(detector), "row": row,
-                    "vals": vals, "s": svals, "det_fields": det_fields, "thread": threading.get_ident()})
+                    "vals": vals, "s": svals, "g": gval, "det_fields": det_fields, "thread": threading.get_ident()})
     try:
         arr = detector.pixel.array.copy()
     except ValueError:
         arr = np.zeros(detector.geometry.shape)
     arr[row, :len(vals)] = vals
     arr[row, 5] = svals
+    arr[row, 6] = gval
     arr[2, :3] = det_fields
     detector.pixel.array = arr
     if kw.get("img"):
@@ -78,6 +81,7 @@ def plan(tier, seed):
 DEFAULTS = {
     "pipeline.{g1}.m1.arguments.a": 1, "pipeline.{g1}.m1.arguments.b": 2.5,
     "pipeline.{g1}.m1.arguments.v": [0.5, 0.25, 0.125], "pipeline.{g1}.m1.arguments.s": "delta",
+    "pipeline.{g1}.m1.arguments.cfg.g": 0.5,
     "pipeline.{g2}.m2.arguments.a": 3, "pipeline.{g2}.m2.arguments.b": 4.5,
     "pipeline.{g2}.m2.arguments.v": [9.0, 8.0, 7.0],
     "detector.environment.temperature": 300.0,
@@ -103,6 +107,8 @@ def gen_values(rng, key, n):
         return rng.sample([77.0, 100.0, 150.5, 273.15, 300.0, 350.0], n), None
     if short == "full_well_capacity":
         return rng.sample([100.0, 2000.0, 5e4, 1e6, 3.5e6], n), None
+    if short == "g":
+        return rng.sample([0.0, 1.5, 2.5, 4.0, 6.25, 8.0], n), None
     if short == "a":
         if rng.random() < 0.25:
             # an expression that yields many more values than its text has characters
@@ -184,6 +190,7 @@ def encode(space, assignment):
         arr[row, :len(vals)] = vals
         s = full.get(pre + "s")
         arr[row, 5] = float(VOCAB.index(s)) if s in VOCAB else -1.0
+        arr[row, 6] = float(full.get(pre + "cfg.g", -1.0))
     arr[2, :3] = [float(full["detector.environment.temperature"]),
                   float(full["detector.characteristics.quantum_efficiency"]),
                   float(full["detector.characteristics.full_well_capacity"])]
@@ -240,6 +247,23 @@ def resolve_positions(ds, names):
         yield sel, assignment, sub
 
 
+def probe_pipeline(space, func="vf.checks.c05.enc", extra=None):
+    """The two-model probe pipeline of a parameter space (shared with C07)."""
+    g1, g2 = space["g1"], space["g2"]
+    d = space["defaults"]
+    img = bool(space.get("two_steps"))
+    extra = extra or {}
+    pspec = {}
+    pspec.setdefault(g1, []).append({"name": "m1", "func": func, "arguments": {
+        "a": d[f"pipeline.{g1}.m1.arguments.a"], "b": d[f"pipeline.{g1}.m1.arguments.b"],
+        "v": list(d[f"pipeline.{g1}.m1.arguments.v"]), "s": d[f"pipeline.{g1}.m1.arguments.s"], "row": 0, "img": img,
+        "cfg": {"g": d[f"pipeline.{g1}.m1.arguments.cfg.g"], "other": [1, 2]}, **extra}})
+    pspec.setdefault(g2, []).append({"name": "m2", "func": func, "arguments": {
+        "a": d[f"pipeline.{g2}.m2.arguments.a"], "b": d[f"pipeline.{g2}.m2.arguments.b"],
+        "v": list(d[f"pipeline.{g2}.m2.arguments.v"]), "row": 1, "img": img, **extra}})
+    return pspec
+
+
 def run_space(rec, index, space):
     import pyxel
     from pyxel.exposure import Readout
@@ -254,16 +278,7 @@ def run_space(rec, index, space):
     names = dim_names(space)
     nontrivial = len(expected) >= 2
 
-    g1, g2 = space["g1"], space["g2"]
-    d = space["defaults"]
-    img = bool(space["two_steps"])
-    pspec = {}
-    pspec.setdefault(g1, []).append({"name": "m1", "func": "vf.checks.c05.enc", "arguments": {
-        "a": d[f"pipeline.{g1}.m1.arguments.a"], "b": d[f"pipeline.{g1}.m1.arguments.b"],
-        "v": list(d[f"pipeline.{g1}.m1.arguments.v"]), "s": d[f"pipeline.{g1}.m1.arguments.s"], "row": 0, "img": img}})
-    pspec.setdefault(g2, []).append({"name": "m2", "func": "vf.checks.c05.enc", "arguments": {
-        "a": d[f"pipeline.{g2}.m2.arguments.a"], "b": d[f"pipeline.{g2}.m2.arguments.b"],
-        "v": list(d[f"pipeline.{g2}.m2.arguments.v"]), "row": 1, "img": img}})
+    pspec = probe_pipeline(space)
     dspec = build.default_detector_spec("ccd", ROWS, COLS)
     detector = build.make_detector(dspec)
     kwargs = {}
@@ -300,8 +315,8 @@ def run_space(rec, index, space):
     rec.count("numpy_expressions", sum(1 for p in en if p["expr"]))
     try:
         obs = Observation(parameters=pv, readout=Readout(times=times), mode=mode, with_dask=dask, **kwargs)
-        tree = pyxel.run_mode(mode=obs, detector=detector, pipeline=build.make_pipeline(pspec),
-                              with_inherited_coords=True)
+        pipe = build.make_pipeline(pspec)
+        tree = pyxel.run_mode(mode=obs, detector=detector, pipeline=pipe, with_inherited_coords=True)
         ds = tree["/bucket"].to_dataset()
         if dask:
             ds = ds.load()
@@ -327,6 +342,7 @@ def run_space(rec, index, space):
             ev = evs[-1]
             arr[ev["row"], :len(ev["vals"])] = ev["vals"]
             arr[ev["row"], 5] = ev["s"]
+            arr[ev["row"], 6] = ev.get("g", -1.0)
             arr[2, :3] = ev["det_fields"]
         observed.append((arr, n_calls))
     rec.count("runs_observed", len(observed))
@@ -402,6 +418,48 @@ def run_space(rec, index, space):
     if remaining:
         rec.violation(f"C05:{tag}:runs-missing-from-result",
                       f"{len(remaining)} of {len(expected)} requested runs have no entry in the result ({npos} positions)", case, index)
+    # ---- (3) history: the very same objects run once more must execute the very same assignments
+    if index % 3 == 0 and not (mode == "sequential" and dask and len(en) >= 2):
+        with _LOCK:
+            LOG.clear()
+            _KEEP.clear()
+        try:
+            tree2 = pyxel.run_mode(mode=obs, detector=detector, pipeline=pipe, with_inherited_coords=True)
+            ds2 = tree2["/bucket"].to_dataset()
+            if dask:
+                ds2 = ds2.load()
+        except Exception as exc:  # noqa: BLE001
+            rec.violation(f"C05:{tag}:second-run-on-same-objects:failed", f"{type(exc).__name__}: {exc}", case, index)
+        else:
+            rec.count("second_runs_on_same_objects")
+            with _LOCK:
+                log2 = list(LOG)
+            runs2: dict[int, dict] = {}
+            for ev in log2:
+                runs2.setdefault(ev["det"], {}).setdefault(ev["model"], []).append(ev)
+            obs2 = []
+            for det, models in runs2.items():
+                arr = np.zeros((ROWS, COLS))
+                for m, evs in models.items():
+                    ev = evs[-1]
+                    arr[ev["row"], :len(ev["vals"])] = ev["vals"]
+                    arr[ev["row"], 5] = ev["s"]
+                    arr[ev["row"], 6] = ev.get("g", -1.0)
+                    arr[2, :3] = ev["det_fields"]
+                obs2.append(arr)
+            rem = list(range(len(exp_arrays)))
+            extra2 = 0
+            for arr in obs2:
+                hit = next((j for j in rem if np.array_equal(exp_arrays[j], arr)), None)
+                if hit is None:
+                    extra2 += 1
+                else:
+                    rem.remove(hit)
+            if rem or extra2 > (1 if dask else 0):
+                rec.violation(f"C05:{tag}:second-run-on-same-objects:executed-runs-differ",
+                              f"running the same observation objects a second time: {len(rem)} requested runs not executed, "
+                              f"{extra2} executions with other values (a value of the first run leaked into the configuration?)",
+                              case, index)
     rec.observe("modes_exec", tag)
     rec.observe("n_runs", len(expected))
     rec.case(sig, nontrivial, sample=case)
